@@ -910,6 +910,40 @@ def judge_twins(ctx, case, resp):
     return None
 
 
+# ---- the process's own time zone: zone-less values take the local offset, so TZ is an input of their comparison --------------------------
+
+LOCAL_ZONES = ["Europe/Warsaw", "America/New_York", "Australia/Lord_Howe", "America/St_Johns"]
+_TZ_DRIVERS = {}
+
+
+def enum_local_zone(ctx):
+    """zone-less date and time / time literals at and around the skipped and the repeated hours of the zone the PROCESS runs in: the text of
+    such a value still reads back as an equal value"""
+    for zone in LOCAL_ZONES:
+        sw = zones.switches(zone)
+        for t in (sw if ctx.thorough() else sw[(ctx.seed % 3)::3][:8]):
+            for off in (zones.offset_at(zone, t - 1), zones.offset_at(zone, t)):
+                for minutes in (-61, -30, -1, 0, 1, 29, 30, 31, 59, 60, 90):
+                    text = dt_text(t + minutes * 60, off)
+                    yield {"kind": "dt", "text": text, "src": "local-zone", "tz": zone}
+                    if minutes in (0, 30):
+                        yield {"kind": "dt", "text": text + ".5", "src": "local-zone", "tz": zone}
+
+
+def judge_local_zone(ctx, case, _resp):
+    from ..engine import Driver
+    d = _TZ_DRIVERS.get(case["tz"])
+    if d is None:
+        d = _TZ_DRIVERS[case["tz"]] = Driver("release", timeout=20.0, env={"TZ": case["tz"]})
+        d.start()
+    resp = [d.safe(r) for r in reqs_literal(case)]
+    ctx.classes["local-zone:" + case["tz"]] += 1
+    f = judge_literal(ctx, case, resp)
+    if f is not None:
+        f.msg = "[process time zone TZ=%s] %s" % (case["tz"], f.msg)
+    return f
+
+
 GRID_YEARS = [2020, 2021, 1900, 2000, 2100, 2400, 1000, 9999, 4, 100, 400, 999, -1, -4, -100, -400, 10000, 262143, 262144,
               999999996, 999999900, 999999999, -999999999, -999999996]
 
@@ -1062,6 +1096,7 @@ def setup(ctx):
     ctx.p_lit = ctx.register(Part("literal", gen_literal, reqs_literal, judge_literal))
     ctx.p_val = ctx.register(Part("value", gen_value, reqs_value, judge_value))
     ctx.p_twins = ctx.register(Part("zone-twins", gen_twins, reqs_twins, judge_twins))
+    ctx.p_local = ctx.register(Part("local-zone", None, lambda case: [], judge_local_zone))
 
 
 def run(ctx):
@@ -1078,6 +1113,11 @@ def run(ctx):
     ctx.forall(ctx.p_lit, ctx.scale(40000, 6400000))
     ctx.forall(ctx.p_val, ctx.scale(20000, 3200000))
     ctx.forall(ctx.p_twins, ctx.scale(8000, 600000))
+    ctx.enumerate(ctx.p_local, enum_local_zone(ctx), batch=100, name="zone-less literals around the clock changes of the process's own time zone (TZ = 4 zones)",
+                  exhaustive=ctx.thorough())
+    for d in _TZ_DRIVERS.values():
+        d.stop()
+    _TZ_DRIVERS.clear()
 
 
 if __name__ == "__main__":
